@@ -198,9 +198,10 @@ PLAN["C02"] = {
     "level_text": "wf (block count = max(1,2^n/64), no bit >= 2^n) is proved by Verus to be established/preserved by every slice kernel it can take, for every n < 64 and every in-range argument, and lemma_ext proves that two wf tables agreeing on every assignment are identical word for word. Kani proves per size (all sizes 0..6 where the invariant has content, with symbolic indices; multi-word sizes to 12/14) that every constructor establishes wf over its whole argument domain, that the logic operators, single-bit mutators, transforms, iterator items and conversions preserve it, and that ==, cmp==Equal and equality of all values coincide (a distinguishing assignment is computed when the blocks differ).",
     "level_note": "Trusted: derived PartialEq/Eq/Hash hash and compare exactly the stored (num_vars, words); Verus/Z3/vstd, Kani/CBMC, rustc. The parser (from_hex_string) is covered under C09 (bounded); canonization outputs are copies of tables produced by the kernels above (frame of the *_ind loops, C04).",
     "verus_units": ["kernels", "theory"],
-    "kani_units": ["spec_ops.rs", "c02_repr.rs", "c09_text.rs"],
-    "kani_filters": {"quick": ["c02q_", "c09q_parse_n"], "thorough": ["c02t_"]},
-    "kani_scope": {r"c09q_parse": "bounded(parser: this n and string length, every ASCII string)", r"_s_|conv": "complete(LutN, fixed N: all tables, all in-range arguments)", r"_d_": "complete(Lut, fixed n: all tables, all in-range arguments)"},
+    "kani_units": ["spec_ops.rs", "c02_repr.rs", "c09_text.rs", "c08_lut.rs", "c10_agree.rs"],
+    "kani_filters": {"quick": ["c02q_", "c09q_parse_n", "c08q_d_orddiff", "c10q_convmm"], "thorough": ["c02t_", "c08t_d_orddiff", "c10t_convmm"]},
+    "kani_scope": {r"c09q_parse": "bounded(parser: this n and string length, every ASCII string)", r"orddiff": "complete(two Luts of these two different sizes: all contents; never Equal, never ==)",
+                   r"convmm": "complete(TryFrom<Lut> from a Lut of this other size is refused: all contents)", r"_s_|conv": "complete(LutN, fixed N: all tables, all in-range arguments)", r"_d_": "complete(Lut, fixed n: all tables, all in-range arguments)"},
     "harness_timeout": {"quick": 600, "thorough": 3600},
     "functions": ["operations::" + f for f in _KERNEL_FUNCS] + ["operations::fill_hex (bounded)", "lemma_ext (extensionality)",
                   "Lut::/StaticLut::{every constructor, from_blocks, blocks, value, get_bit, set_bit, unset_bit, set_value, logic operators, flip, swap, swap_adjacent, cofactors, from_cofactors, all_functions}",
@@ -324,17 +325,18 @@ PLAN["C09"] = {
     "level": "model_checking",
     "technique": "Kani function contract on hex_str_size (all n) + BOUNDED Kani contract triples on the real to_hex / to_bin (one-word tables, n <= 3/4, real core::fmt) and on the real fill_hex with the real u64::from_str_radix (every ASCII string of length width-1, width, width+1 for n <= 6, every 32-character ASCII string for n = 7, plus concrete non-ASCII strings)",
     "level_text": "Bounded: hex_str_size is proved for all n. Printing: for every well-formed one-word table of n <= 3 (hex; 4-5 in thorough) / n <= 2 (binary; 3 in thorough) variables the text has exactly the fixed width and digit i is the lower-case hex (binary) digit of the corresponding nibble (bit), most significant first. Parsing: for n = 0..6 and EVERY ASCII string of length width-1, width and width+1 (n = 7: every 32-character ASCII string, two words), fill_hex never panics, returns Ok only for exactly-width hex-digit strings whose value fits in 2^n bits, then stores exactly the denoted value (first 16 digits = most significant word) in a well-formed table, accepts every such lower-case string, and rejects everything else (signs, spaces, 'g', 'x', too-large digits); non-ASCII text is rejected on concrete multi-byte samples. The print/parse round trip follows from the two contracts.",
-    "level_note": "BOUNDED, never counted as proved beyond the stated sizes: printing is limited by the cost of core::fmt in CBMC (one 16-digit word does not terminate); multi-word PRINT order, Display/LowerHex/Binary wrappers and n >= 8 parsing are not covered. Non-ASCII rejection is checked on six concrete strings only (symbolic UTF-8 validation costs 450 s per harness).",
+    "level_note": "BOUNDED, never counted as proved beyond the stated sizes: printing is limited by the cost of core::fmt in CBMC (one 16-digit word does not terminate); multi-word PRINT order and n >= 8 parsing are not covered; the Display/LowerHex/Binary wrappers are covered modularly (callee stubbed). Non-ASCII rejection is checked on six concrete strings only (symbolic UTF-8 validation costs 450 s per harness).",
     "kani_units": ["spec_ops.rs", "c09_text.rs"],
     "kani_filters": {"quick": ["c09q_"], "thorough": ["c09t_"]},
-    "kani_scope": {r"hex_str_size": "complete(all n: loop-free function contract)", r"print_(hex|bin)_n(\d)": "bounded(one-word table of this n; all contents)",
+    "kani_scope": {r"hex_str_size": "complete(all n: loop-free function contract)", r"wrap_|display_": "complete(this n: wrapper text around the callee's text; callee stubbed by its marker contract)", r"print_(hex|bin)_n(\d)": "bounded(one-word table of this n; all contents)",
                    r"parse_non_ascii": "bounded(six concrete non-ASCII strings)", r"parse_n7": "bounded(n = 7: every 32-character ASCII string)",
                    r"parse_n(\d)_len(\d+)": "bounded(this n and this string length: every ASCII string)"},
     "harness_timeout": {"quick": 900, "thorough": 3600},
     "functions": ["operations::hex_str_size", "operations::to_hex", "operations::to_bin", "operations::fill_hex (with core's u64::from_str_radix, str::is_ascii, u8::is_ascii_hexdigit)"],
     "assumptions": [
         "bounds: print n <= 3 (hex) / n <= 2 (bin) in quick, 5 / 3 in thorough, one word; parse n <= 7, lengths width-1..width+1, ASCII bytes symbolic",
-        "not covered: printing of multi-word tables (word order), fmt_hex/fmt_bin/Display/LowerHex/Binary wrappers, Lut::/StaticLut:: string wrappers (they forward (n, table) unchanged: C10 proves forwarding for the other methods), strings of other lengths (rejected by the length test on the path that is covered)",
+        "fmt_hex / fmt_bin and Display/LowerHex/Binary of both types are verified MODULARLY (Kani stub of to_hex/to_bin by a marker text): output == \"Lut\" + n in decimal + \"(\" + callee text + \")\" for n = 0..12 samples",
+        "not covered: printing of multi-word tables (word order inside to_hex/to_bin), to_hex_string/to_bin_string/from_hex_string forwarding of Lut/StaticLut (one-line forwards of (n, table)), strings of other lengths (rejected by the length test on the path that is covered)",
         "round trip = composition of the print and parse contracts (paper, two lines)",
     ],
     "scope_note": "bounded: see per-harness scopes",
